@@ -42,9 +42,9 @@ ASSUMPTIONS = [
     "uploads go through the destination file system's put_file (reflink is disabled in the wrapper so "
     "that injected failures hit every upload); an upload is atomic (C04/C15 validate that)",
     "the MEMORY-protocol shortcut of status() is not modelled",
-    "history stream: real ids are renamed to short aliases (files [i], directories [j].dir) before the "
-    "model is evaluated - the model only tests ids for equality and for the .dir suffix; the status and "
-    "compare streams use the real ids",
+    "real ids are renamed to short aliases (files [i], directories [j].dir) before the model is "
+    "evaluated - the model only tests ids for equality and for the .dir suffix; the first 16 cases of "
+    "the status and compare streams use the real 32-character ids",
     "set iteration order inside _indexed_dir_hashes/_do_transfer is not imposed: the model folds in a "
     "canonical order and StatusProofs.indexed_loop_perm shows the order is irrelevant for flat listings",
 ]
@@ -211,21 +211,38 @@ def c_oids(oids):
     return clist([cbytes(o) for o in oids])
 
 
+def make_alias(W):
+    """short stand-ins for the real ids (files [i+1], absent ids [i+50], directories [j+100].dir,
+    00-objects [i+200, 0]): the model only tests ids for equality and for the .dir suffix, and
+    32-character gmap keys make its evaluation inside coqc an order of magnitude slower"""
+    alias = {}
+    for n, o in W.oid.items():
+        if n.startswith("D"):
+            alias[o] = bytes([int(n[1:]) + 100]) + b".dir"
+        elif n.startswith("F"):
+            alias[o] = bytes([int(n[1:]) + 1])
+        elif n.startswith("A"):
+            alias[o] = bytes([int(n[1:]) + 50])
+        else:
+            alias[o] = bytes([int(n[1:]) + 200, 0])
+    return alias
+
+
 def c_trees(W, dnames, ren=lambda o: o):
     return clist([cpair(cbytes(ren(W.oid[d])), c_oids([ren(W.oid[f]) for f in W.listing[d]]))
                   for d in dnames])
 
 
-def c_ix(W, entries):
+def c_ix(W, entries, ren=lambda o: o):
     if entries is None:
         return "None"
-    return "(Some " + clist([cpair(cbytes(W.oid[n]), cbool(f)) for n, f in entries]) + ")"
+    return "(Some " + clist([cpair(cbytes(ren(W.oid[n])), cbool(f)) for n, f in entries]) + ")"
 
 
-def v_ix(ix):
+def v_ix(ix, ren=lambda o: o):
     if ix is None:
         return vL([])
-    return vL([vL([vset(ix[0]), vset(ix[1])])])
+    return vL([vL([vset([ren(o) for o in ix[0]]), vset([ren(o) for o in ix[1]])])])
 
 
 # --------------------------------------------------------------------------------------
@@ -312,7 +329,7 @@ def expected_ids(W, q, shallow, loadable_dirs):
     return ids
 
 
-def run_status_case(ctx, case):
+def run_status_case(ctx, case, real_ids=False):
     from dvc_data.hashfile.db import get_index
     from dvc_data.hashfile.status import status
 
@@ -346,11 +363,15 @@ def run_status_case(ctx, case):
         index.close()
 
     ld = loadable(W, case, case["store"])
+    alias = make_alias(W)
+    ren = (lambda o: o) if real_ids else (lambda o: alias[o])
     inp = ("{| sc_store := %s; sc_trees := %s; sc_q := %s; sc_shallow := %s; sc_ix := %s |}"
-           % (c_oids(sorted(before)), c_trees(W, ld), c_oids([W.oid[n] for n in case["q"]]),
-              cbool(case["shallow"]), c_ix(W, case.get("index"))))
+           % (c_oids([ren(o) for o in sorted(before)]), c_trees(W, ld, ren),
+              c_oids([ren(W.oid[n]) for n in case["q"]]),
+              cbool(case["shallow"]), c_ix(W, case.get("index"), ren)))
     if res[0] == "ok":
-        exp = vL([vN(1), vset(res[1]), vset(res[2]), v_ix(ix_after)])
+        exp = vL([vN(1), vset([ren(o) for o in res[1]]), vset([ren(o) for o in res[2]]),
+                  v_ix(ix_after, ren)])
     else:
         exp = vL([vN(0), vN(res[1] if res[0] == "err" else 99)])
 
@@ -447,7 +468,7 @@ def gen_compare_case(rng):
     return case
 
 
-def run_compare_case(ctx, case):
+def run_compare_case(ctx, case, real_ids=False):
     from dvc_data.hashfile.db import get_index
     from dvc_data.hashfile.status import compare_status
 
@@ -484,13 +505,17 @@ def run_compare_case(ctx, case):
             i.close()
     src_dirs = [d for d in case["src"] if d.startswith("D")]
     ld_d = case["cache"] if case.get("cache") is not None else src_dirs
+    alias = make_alias(W)
+    ren = (lambda o: o) if real_ids else (lambda o: alias[o])
     inp = ("{| cc_src := %s; cc_dst := %s; cc_trees_s := %s; cc_trees_d := %s; cc_q := %s; "
            "cc_shallow := %s; cc_check_deleted := %s; cc_six := %s; cc_dix := %s |}"
-           % (c_oids(sorted(sb)), c_oids(sorted(db)), c_trees(W, src_dirs), c_trees(W, ld_d),
-              c_oids([W.oid[n] for n in case["q"]]), cbool(case["shallow"]),
-              cbool(case["check_deleted"]), c_ix(W, case["six"]), c_ix(W, case["dix"])))
+           % (c_oids([ren(o) for o in sorted(sb)]), c_oids([ren(o) for o in sorted(db)]),
+              c_trees(W, src_dirs, ren), c_trees(W, ld_d, ren),
+              c_oids([ren(W.oid[n]) for n in case["q"]]), cbool(case["shallow"]),
+              cbool(case["check_deleted"]), c_ix(W, case["six"], ren), c_ix(W, case["dix"], ren)))
     if res[0] == "ok":
-        exp = vL([vN(1), vL([vset(x) for x in res[1:]]), v_ix(six_a), v_ix(dix_a)])
+        exp = vL([vN(1), vL([vset([ren(o) for o in x]) for x in res[1:]]), v_ix(six_a, ren),
+                  v_ix(dix_a, ren)])
     else:
         exp = vL([vN(0), vN(res[1] if res[0] == "err" else 99)])
 
@@ -627,17 +652,7 @@ def run_history_case(ctx, case):
     index = get_index(remote)
     closed = case.get("closed", True)
 
-    # aliases for the model
-    alias = {}
-    for n, o in W.oid.items():
-        if n.startswith("D"):
-            alias[o] = bytes([int(n[1:]) + 100]) + b".dir"
-        elif n.startswith("F"):
-            alias[o] = bytes([int(n[1:]) + 1])
-        elif n.startswith("A"):
-            alias[o] = bytes([int(n[1:]) + 50])
-        else:
-            alias[o] = bytes([int(n[1:]) + 200, 0])
+    alias = make_alias(W)  # aliases for the model
 
     def ren(o):
         return alias[o]
@@ -839,14 +854,15 @@ def run(ctx):
         h_cases.append(gen_history_case(rng, max_ops, closed=rng.random() < 0.8))
 
     st_items, cmp_items, h_items = [], [], []
-    for c in st_cases:
-        inp, exp, problems, nontrivial, _ = run_status_case(ctx, c)
+    n_real = 16  # the first cases of each stream are evaluated on the real 32-character ids
+    for k, c in enumerate(st_cases):
+        inp, exp, problems, nontrivial, _ = run_status_case(ctx, c, real_ids=k < n_real)
         ctx.case(c, nontrivial)
         for sig, what in problems:
             ctx.oracle_fail(sig, what, c)
         st_items.append((c, inp, exp))
-    for c in cmp_cases:
-        inp, exp, problems, nontrivial, _ = run_compare_case(ctx, c)
+    for k, c in enumerate(cmp_cases):
+        inp, exp, problems, nontrivial, _ = run_compare_case(ctx, c, real_ids=k < n_real)
         ctx.case(c, nontrivial)
         for sig, what in problems:
             ctx.oracle_fail(sig, what, c)
@@ -892,11 +908,11 @@ def run(ctx):
     # ids as gmap keys make one vm_compute of 200 cases take > 20 s in a single process)
     quick = ctx.tier == "quick"
     ctx.correspond("status", IMPORTS, "status_case", "run_status_case", st_items,
-                   shard=20 if quick else 100)
+                   shard=40 if quick else 250)
     ctx.correspond("compare", IMPORTS, "compare_case", "run_compare_case", cmp_items,
-                   shard=10 if quick else 50)
+                   shard=30 if quick else 150)
     ctx.correspond("history", IMPORTS, "history_case", "run_history_case", h_items,
-                   shard=12 if quick else 30)
+                   shard=18 if quick else 60)
 
 
 def replay_case(ctx, case):
